@@ -7,6 +7,29 @@ import AsyncsshModel.Model.Gate
 namespace AsyncsshModel.C06
 open AsyncsshModel.Gate AsyncsshModel.Gen.C06
 
+/-! ### the cascade of the model is the cascade of the code (branch conditions regenerated from the AST) -/
+
+/-- the model's `route` tests are exactly the six `if/elif` conditions of `_recv_packet`, in the same order
+    (`route` is the nested `if` over the right-hand sides below, top to bottom) -/
+theorem route_matches_code (f : Flags) (t : Nat) :
+    cascadeLen = 6 ∧
+    (cascade0 t f.strict f.recvEnc f.authComplete ↔ (MSG_KEX_FIRST ≤ t ∧ t ≤ MSG_KEX_LAST)) ∧
+    (cascade1 t f.strict f.recvEnc f.authComplete ↔ (f.strict ∧ ¬ f.recvEnc ∧ MSG_IGNORE ≤ t ∧ t ≤ MSG_DEBUG)) ∧
+    (cascade2 t f.strict f.recvEnc f.authComplete ↔ (MSG_USERAUTH_FIRST ≤ t ∧ t ≤ MSG_USERAUTH_LAST)) ∧
+    (cascade3 t f.strict f.recvEnc f.authComplete ↔ (t > MSG_KEX_LAST ∧ ¬ f.recvEnc)) ∧
+    (cascade4 t f.strict f.recvEnc f.authComplete ↔ (t > MSG_USERAUTH_LAST ∧ ¬ f.authComplete)) ∧
+    (cascade5 t f.strict f.recvEnc f.authComplete ↔ (MSG_CHANNEL_FIRST ≤ t ∧ t ≤ MSG_CHANNEL_LAST)) := by
+  refine ⟨rfl, ?_, ?_, ?_, ?_, ?_, ?_⟩
+  · simp only [cascade0, MSG_KEX_FIRST, MSG_KEX_LAST]; omega
+  · simp only [cascade1, MSG_IGNORE, MSG_DEBUG]
+    constructor <;> (intro h; refine ⟨h.1, h.2.1, ?_, ?_⟩ <;> omega)
+  · simp only [cascade2, MSG_USERAUTH_FIRST, MSG_USERAUTH_LAST]; omega
+  · simp only [cascade3, MSG_KEX_LAST]
+    constructor <;> (intro h; refine ⟨?_, h.2⟩; omega)
+  · simp only [cascade4, MSG_USERAUTH_LAST]
+    constructor <;> (intro h; refine ⟨?_, h.2⟩; omega)
+  · simp only [cascade5, MSG_CHANNEL_FIRST, MSG_CHANNEL_LAST]; omega
+
 /-! ### structure of `effect` -/
 
 theorem handled_target {f : Flags} {t : Nat} {c : Option Nat} {tgt : Target} (h : effect f t c = .handled tgt) :
